@@ -475,6 +475,19 @@ func runLabelled(sh *Shape, sink *Sink, dst io.Writer, page, codec int, ops []Op
 		}
 		if err != nil {
 			out.errLabel = sink.Label
+			// a caller does not drop the writer on the floor after an error: the remaining calls
+			// (at least the deferred Close) still happen. Their results are not judged — a panic is.
+			for j := i + 1; j < len(ops); j++ {
+				sink.Label = fmt.Sprintf("%d:%s(after the error)", j, ops[j].Kind)
+				switch ops[j].Kind {
+				case "add":
+					w.Add(sc.ToGo(ops[j].Rec).Interface())
+				case "write":
+					w.Write()
+				case "close":
+					w.Close()
+				}
+			}
 			return out
 		}
 	}
@@ -535,7 +548,11 @@ func runC10(c *Ctx) {
 			c.Out.Count("files", 1)
 			c.Out.Count("source_calls_total", int64(n))
 			c.Out.Sample(map[string]interface{}{"file": f.ID, "bytes": len(file), "source_calls": n, "fragmentation": frag, "fault_positions": fmt.Sprintf("0..%d x {zero,partial}", n-1)})
-			modes := []string{"zero", "partial"}
+			// "eof": the failing call returns (0, io.EOF) — a source that ends early
+			modes := []string{"zero", "partial", "eof"}
+			if frag != 0 {
+				modes = modes[:2]
+			}
 			for k := 0; k < n; k++ {
 				for _, mode := range modes {
 					id := fmt.Sprintf("%s/frag=%d/k=%d/%s", f.ID, frag, k, mode)
